@@ -176,6 +176,7 @@ func init() {
 		ID:    "switch/shift-siblings",
 		Text:  "all functions that dispatch on the right operand of a bit shift (default arm: NewBitshiftOperandError) accept the same set of integer representations: an operand representation one shift accepts and a sibling rejects is a TypeError for a well-typed program",
 		Floor: 4,
+		Arch:  true,
 		Run:   runShiftSiblings,
 	})
 }
